@@ -1,6 +1,6 @@
 CONSTANTS
   Starts = {"pheno_real", "pheno_block", "mox2", "pheno_advan3", "pheno_advan4", "oral2_cmt"}
-  Acts = {"A:INST", "A:FO", "A:ZO", "A:SEQ", "E:FO", "E:ZO", "E:MM", "E:MIX", "P:0", "P:1", "P:2", "P+", "P-", "T:0", "T:1", "T:3", "T:2N", "L:1", "L:0", "B:1", "B:0", "M:BASIC", "ZI", "COV", "CAT", "RCOV", "IOV", "RIOV", "IIV", "FIX", "RCL", "RV"}
+  Acts = {"A:INST", "A:FO", "A:ZO", "A:SEQ", "E:FO", "E:ZO", "E:MM", "E:MIX", "P:0", "P:1", "P:2", "P+", "P-", "T:0", "T:1", "T:3", "T:2N", "L:1", "L:0", "B:1", "B:0", "M:BASIC", "ZI", "COV", "CAT", "RCOV", "IOV", "RIOV", "CE", "RUV1", "RUV2", "RRV", "IIV", "FIX", "RCL", "RV"}
   MaxPeriph = 2
 INIT Init
 NEXT Next
